@@ -236,6 +236,15 @@ func (g *schemaGenerator) extractRefNames(t *schemas.Type) (string, string, erro
 		}
 
 		defName = scope[len(prefix):]
+		if defName == "" {
+			// "#/$defs/" names the definition "", not the document: without this it was taken
+			// for a reference to the whole file.
+			return "", "", fmt.Errorf(
+				"%w: value names no definition: '%s'",
+				errCannotGenerateReferencedType,
+				t.Ref,
+			)
+		}
 	}
 
 	return defName, fileName, nil
